@@ -110,7 +110,7 @@ CHECKS["C14"] = dict(
 
 CHECKS["C04"] = dict(
     cat="model_checking", ref="DESIGN.md §3 C04",
-    technique="explicit-state BFS over Platform.find_include_file call histories (state = the include memo and once-list, invariant = stateless reference resolver) plus bounded-exhaustive enumeration of multi-directory trees (15 header placements x 5 header styles x include sequences x 13 ordered -I/-isystem lists x -include; for two-directory lists a companion platform analyses the same TU first with the list reversed) analysed through config.load_database + finder.find against a reference preprocessor, cross-checked with gcc -E on the materialised trees",
+    technique="explicit-state BFS over Platform.find_include_file call histories (state = the include memo and once-list, invariant = stateless reference resolver) plus bounded-exhaustive enumeration of multi-directory trees (15 header placements x 5 header styles x include sequences x 15 ordered -I/-isystem lists (two with a repeated directory) x -include, + a self-including header bounded by macros; for two-directory lists a companion platform analyses the same TU first with the list reversed) analysed through config.load_database + finder.find against a reference preprocessor, cross-checked with gcc -E on the materialised trees",
     text="Every enumerated tree / command line is analysed by the real code and the per-line attribution of every header copy and of the translation unit must equal the reference preprocessor's (includer's directory first for quote includes, all -I before all -isystem, first match wins, guard / #pragma once bodies once per TU, forced include first, macros visible afterwards); every resolver call history must answer like the stateless resolver.",
     note="Reference ref/cpp.py validated against gcc -E -P (emitted code lines); missing headers excluded (C18); same directory as -I and -isystem, -iquote, #include_next outside the alphabet.",
 )
